@@ -547,3 +547,73 @@ def verify_fragment(world, contract, report=None, only_cfg=None, scope=None):
             rep.obligations.extend(ctx.obls)
     rep.seconds = time.time() - t0
     return rep
+
+
+def fragment_statements(world, contract):
+    """the AST statements of a fragment contract in the current source"""
+    import ast as _ast
+    from .interp import loop_ordinals
+    pyfn = world.bind.resolve(contract.qualname)
+    fd = world.bind.function_ast(pyfn)
+    norm = lambda st: _ast.unparse(st).replace('\n', ' ')
+    rng = getattr(contract, 'stmt_range', None)
+    if rng is not None:
+        i0 = [i for i, st in enumerate(fd.body) if norm(st).startswith(rng[0])][0]
+        i1 = [i for i, st in enumerate(fd.body) if norm(st).startswith(rng[1])][0]
+        return pyfn, fd.body[i0:i1]
+    blk = getattr(contract, 'stmt_block', None)
+    if blk is not None:
+        for n in _ast.walk(fd):
+            for fld in ('body', 'orelse', 'finalbody'):
+                b = getattr(n, fld, None)
+                if isinstance(b, list):
+                    for i, st in enumerate(b):
+                        if isinstance(st, _ast.stmt) and norm(st).startswith(blk[0]):
+                            return pyfn, b[i:i + blk[1]]
+    ids = loop_ordinals(fd)
+    for n in _ast.walk(fd):
+        if isinstance(n, (_ast.For, _ast.While)) and ids.get(id(n)) == contract.loop_ordinal:
+            return pyfn, n.body
+    raise BindError("fragment not found")
+
+
+def exec_fragment(world, contract, env):
+    """run the REAL statements of the fragment (compiled from the current source, module globals of
+    the function) on a concrete environment; returns (outcome, locals after)"""
+    import ast as _ast
+    import copy as _copy
+    pyfn, stmts = fragment_statements(world, contract)
+    names = [k for k in env if k.isidentifier() and not k.startswith('_')]
+    src = "def __frag(__env):\n" + ''.join("    %s = __env[%r]\n" % (k, k) for k in names) + "    for __once in (0,):\n        pass\n    return locals()\n"
+    mod = _ast.parse(src)
+    fn = mod.body[0]
+    loop = [s_ for s_ in fn.body if isinstance(s_, _ast.For)][0]
+    loop.body = [_copy.deepcopy(s_) for s_ in stmts]
+    _ast.fix_missing_locations(mod)
+    g = dict(getattr(pyfn, '__globals__', {}))
+    exec(compile(mod, '<fragment:%s>' % getattr(contract, 'key', contract.qualname), 'exec'), g)
+    try:
+        loc = g['__frag'](dict(env))
+        return 'completed', loc
+    except Exception as e:
+        return 'raise:' + type(e).__name__, {'__exc__': repr(e)}
+
+
+def replay_fragment_generic(world, contract, cfg, concrete_env):
+    """concrete interpretation of a fragment contract: real statements + post_env on real values"""
+    from .concrete import wrap
+    import copy as _copy
+    before = NS(**{k: wrap(_copy.deepcopy(v), k) for k, v in concrete_env.items()})
+    outcome, loc = exec_fragment(world, contract, _copy.deepcopy(concrete_env))
+    if outcome.startswith('raise'):
+        after = NS(**{k: wrap(v, k) for k, v in concrete_env.items()})
+    else:
+        after = NS(**{k: wrap(v, k) for k, v in loc.items() if not k.startswith('__')})
+    viol = []
+    try:
+        for label, f in contract.post_env(before, after, outcome, cfg):
+            if not bool(f):
+                viol.append('%s false after running the real statements on %s' % (label, {k: (v.tolist() if hasattr(v, 'tolist') else v) for k, v in concrete_env.items() if not k.startswith('_')}))
+    except Exception as e:
+        viol.append('contract evaluation failed: %r' % (e,))
+    return viol
